@@ -23,6 +23,7 @@ type specCtx struct {
 	where string
 	depth int
 	qn    *int
+	loop  int // ordinal of the loop whose invariant is being evaluated (0 = none)
 }
 
 func (sc *specCtx) with(name string, v Term) *specCtx {
@@ -305,6 +306,11 @@ func (t *tr) specIdent(x *ast.Ident, sc *specCtx) Term {
 		return Term{S: "0", Sort: SInt}
 	case "allocTop":
 		return t.readIn(sc.cur, t.allocTop)
+	case "range_idx":
+		if v, ok := t.named[fmt.Sprintf("range_idx$%d", sc.loop)]; ok {
+			return t.readIn(sc.cur, v)
+		}
+		return t.specErr(sc, "range_idx used outside a range loop invariant")
 	}
 	if v, ok := sc.vars[x.Name]; ok {
 		return v
@@ -487,6 +493,21 @@ func (t *tr) specCall(c *ast.CallExpr, sc *specCtx) Term {
 			}
 		} else {
 			body = t.spec(c.Args[1], sc2)
+		}
+		if len(c.Args) == 4 {
+			// Normalise to absolute indices: when the bound variable occurs only as (+ (off S) i) for one slice S,
+			// quantify over j = off+i instead, so that solvers get the clean trigger (select a j).
+			lo, hi := t.spec(c.Args[1], sc), t.spec(c.Args[2], sc)
+			p := t.spec(c.Args[3], sc2)
+			if off, ok := soleOffsetUse(p.S, bv.S); ok {
+				np := Term{S: strings.ReplaceAll(p.S, "(+ "+off+" "+bv.S+")", bv.S), Sort: SBool}
+				o := Term{S: off, Sort: SInt}
+				rng := and(le(add(o, lo), bv), lt(bv, add(o, hi)))
+				if name == "forall" {
+					return forallT([]Term{bv}, implies(rng, np))
+				}
+				return existsT([]Term{bv}, and(rng, np))
+			}
 		}
 		if name == "forall" {
 			return forallT([]Term{bv}, body)
@@ -678,6 +699,56 @@ func (t *tr) specApply(sf *SpecFunc, c *ast.CallExpr, sc *specCtx) Term {
 		r.T = RT
 	}
 	return r
+}
+
+// soleOffsetUse reports whether every occurrence of bound variable v in f has the form (+ (off S) v) for a
+// single slice term S, returning the text of (off S).
+func soleOffsetUse(f, v string) (string, bool) {
+	total := 0
+	off := ""
+	for i := 0; ; {
+		k := strings.Index(f[i:], v)
+		if k < 0 {
+			break
+		}
+		k += i
+		i = k + len(v)
+		// must be a whole symbol
+		if i < len(f) && !strings.ContainsRune(" )", rune(f[i])) {
+			continue
+		}
+		total++
+		// expect "(+ (off ...) " immediately before
+		if k < 1 || f[k-1] != ' ' || k < 2 || f[k-2] != ')' {
+			return "", false
+		}
+		// find the matching '(' of the term ending at k-2
+		depth := 0
+		j := k - 2
+		for ; j >= 0; j-- {
+			if f[j] == ')' {
+				depth++
+			} else if f[j] == '(' {
+				depth--
+				if depth == 0 {
+					break
+				}
+			}
+		}
+		if j < 3 || f[j-3:j] != "(+ " || !strings.HasPrefix(f[j:], "(off ") || i >= len(f) || f[i] != ')' {
+			return "", false
+		}
+		o := f[j : k-1]
+		if off == "" {
+			off = o
+		} else if off != o {
+			return "", false
+		}
+	}
+	if total == 0 || off == "" {
+		return "", false
+	}
+	return off, true
 }
 
 var _ = constant.MakeBool
